@@ -142,19 +142,25 @@ def pickLeading (init : List InitTrack) : Except Err Int :=
     | t :: _ => .ok t.id
     | [] => .error (.panic .indexOutOfRange)
 
+/-- `p.init.Tracks` as used by the rest of `run`: all init tracks, or (repair of F8) those with a known codec -/
+def effInit (init0 : List InitTrack) : List InitTrack :=
+  if fmp4SkipsUnsupportedTracks then init0.filter (fun t => kindKnown t.kind) else init0
+
+/-- the checks of `run` between `Unmarshal` and `setTracks`, on the effective track list -/
+def FStream.startChecks (isLeading : Bool) (firstIdx : Nat) (init : List InitTrack) : Except Err FStream :=
+  if (fmp4SkipsUnsupportedTracks && init.isEmpty) = true then .error .noSupportedTracks
+  else if (!isLeading && init.length != 1) = true then .error .renditionMultiTrack
+  else
+    match pickLeading init with
+    | .error e => .error e
+    | .ok lid =>
+      if (init.length : Int) > clientMaxTracksPerStream then .error .tooManyTracks
+      else .ok { isLeading := isLeading, firstIdx := firstIdx, init := init, leadingTrackID := lid }
+
 /-- prefix of `clientStreamProcessorFMP4.run` up to `setTracks` (with the repairs of F8/F9 when the source has them) -/
 def FStream.start (isLeading : Bool) (firstIdx : Nat) (init0 : List InitTrack) : Except Err FStream :=
-  if fmp4RejectsZeroTimeScale && init0.any (·.timeScale = 0) then .error .zeroTimeScale
-  else
-    let init := if fmp4SkipsUnsupportedTracks then init0.filter (fun t => kindKnown t.kind) else init0
-    if fmp4SkipsUnsupportedTracks && init.isEmpty then .error .noSupportedTracks
-    else if !isLeading && init.length ≠ 1 then .error .renditionMultiTrack
-    else
-      match pickLeading init with
-      | .error e => .error e
-      | .ok lid =>
-        if (init.length : Int) > clientMaxTracksPerStream then .error .tooManyTracks
-        else .ok { isLeading := isLeading, firstIdx := firstIdx, init := init, leadingTrackID := lid }
+  if (fmp4RejectsZeroTimeScale && init0.any (·.timeScale == 0)) = true then .error .zeroTimeScale
+  else FStream.startChecks isLeading firstIdx (effInit init0)
 
 /-- the tracks the stream hands to `setTracks` / `OnTracks`, in order -/
 def trackInfos (firstIdx : Nat) : List InitTrack → List TrackInfo
